@@ -217,6 +217,7 @@ def concurrent_run(vals, n_threads, per_thread, chooser, seed=0, lines=True):
     import bromelia.base as B
     s = simlib.Sim(seed=seed, trace_files=("bromelia/base.py",) if lines else (), trace_funcs=TRACE_FUNCS, max_steps=20000, timeout_prob=0)
     s.keep_log = False
+    s.spin_timeout = 8.0
     ns, _q, _t, _s = simlib.make_modules(s)
     log = []
     who = lambda: int(s.cur.name[1:]) if s.cur is not None else -1
@@ -311,8 +312,12 @@ def concurrent(chk, rng, n_random, n_dfs, tag):
         for prefix, fanout, res in simlib.dfs(run_one, n_dfs):
             record(res, vals, 2, 1, "dfs")
             count += 1
+            if chk.saturated():
+                break
         chk.extra.setdefault("dfs", []).append({"source": vals[:8], "schedules": count, "complete": bool(getattr(simlib.dfs, "complete", False))})
     for _ in range(n_random):
+        if chk.saturated():
+            break
         n_threads = rng.choice([2, 2, 3])
         per_thread = rng.choice([1, 2])
         fam, vals = make_source(rng, 8)
